@@ -93,8 +93,14 @@ impl Segment {
 
     // file deletion, closing of readers/writers, parent counters: I/O. May fail. ASSUMED to leave the
     // offsets, flags, expiry and stored messages' identity of the in-memory segment untouched.
+    // LINKED: unit counters proves exactly this contract of the real function (units/counters/lemmas.rs, harness
+    // [C16.link.retention.delete]; an edit here has to be mirrored there). The `requires` was added by the link: the real function
+    // computes `current_offset - start_offset + 1` (Segment::get_messages_count) — the stub had no precondition.
     #[verifier::external_body]
     pub fn delete(&mut self) -> (r: Result<(), IggyError>)
+        requires
+            old(self).current_offset >= old(self).start_offset,
+            old(self).current_offset - old(self).start_offset + 1 <= u64::MAX,
         ensures seg_core_eq(*old(self), *final(self)),
     { unimplemented!() }
 
@@ -519,6 +525,7 @@ pub open spec fn pass_list_complete(t: Topic, now: int, l: Seq<SegmentsToHandle>
 // R5/R6: `topic.get_partition(id)` hands out the IggySharedMut<Partition> stored under `id` (an Arc clone of the lock);
 // with the lock dropped and the Arc alias made explicit this is a mutable reference into the topic's map.
 impl Topic {
+    // LINKED (the map clause): units/topic_limit/lemmas.rs, harness [C15.link.retention.get_partition] (mirror edits there)
     #[verifier::external_body]
     pub fn get_partition(&mut self, partition_id: u32) -> (r: Result<&mut Partition, IggyError>)
         ensures
